@@ -1,12 +1,134 @@
 /-
   UnytModel.Ops.C08 — opcodes of the C08 model (prefix `c08.`).
+
+  Units travel as `<prefix symbol>:<table symbol>` (e.g. `m:degC`, `:K`, `da:delta_degC`); the
+  prefix value and the rows come from the regenerated tables.  Doubles travel as bit patterns.
 -/
 import UnytModel.DriverBase
+import UnytModel.TempTable
 
 namespace Unyt
+open Unyt.Temp
 
-def opsC08 : Handler := fun _st fields =>
-  match fields with
+namespace C08Wire
+
+def parseTU (s : String) : Option (TU Float) :=
+  match s.splitOn ":" with
+  | [p, b] =>
+    match TBase.ofName (Name.ofString b) with
+    | none => none
+    | some base =>
+      if p.isEmpty then some ⟨none, base⟩
+      else match genPfx Float (Name.ofString p) with
+        | some pf => some ⟨some pf, base⟩
+        | none => none
   | _ => none
+
+def tuStr (u : TU Float) : String :=
+  (match u.pre with | none => "" | some p => Name.toString p.sym) ++ ":" ++ Name.toString u.base.name
+
+def parseOpnd (s : String) : Option (Opnd Float) :=
+  if s == "dimless" then some .dimless
+  else if s == "other" then some .other
+  else (parseTU s).map .temp
+
+def parseRule (s : String) : Option Rule :=
+  if s == "preserve" then some .preserve
+  else if s == "difference" then some .difference
+  else if s == "comparison" then some .comparison
+  else none
+
+def parseUnOp (s : String) (p : String) : Option UnOp :=
+  if s == "sqrt" then some .sqrt
+  else if s == "cbrt" then some .cbrt
+  else if s == "square" then some .square
+  else if s == "reciprocal" then some .reciprocal
+  else if s == "power" then (parseRat p).map .power
+  else if s == "mulreduce" then p.toNat?.map .mulReduce
+  else none
+
+def lvOut : Except Err (TU Float × Float) → String
+  | .ok (u, v) => s!"ok\t{tuStr u}\t{bitsStr v}"
+  | .error e => s!"err\t{e.str}"
+
+def unitVOut : Except Err (UnitV Float) → String
+  | .ok u => s!"ok\t{bitsStr u.scale}\t{bitsStr u.offset}\t{u.dim.str}"
+  | .error e => s!"err\t{e.str}"
+
+end C08Wire
+open C08Wire
+
+def stepC08 (fields : List String) : String :=
+  let tab := genTab Float
+  match fields with
+  | ["c08.add", a, b, x, y] =>
+    match parseTU a, parseTU b, fb x, fb y with
+    | some u0, some u1, some x0, some x1 => lvOut (tempAdd tab u0 x0 u1 x1)
+    | _, _, _, _ => "bad-op"
+  | ["c08.sub", a, b, x, y] =>
+    match parseTU a, parseTU b, fb x, fb y with
+    | some u0, some u1, some x0, some x1 => lvOut (tempSub tab u0 x0 u1 x1)
+    | _, _, _, _ => "bad-op"
+  | ["c08.cmp", a, b, x, y] =>
+    match parseTU a, parseTU b, fb x, fb y with
+    | some u0, some u1, some x0, some x1 =>
+      match tempCmpArgs tab u0 x0 u1 x1 with
+      | .ok (p, q) => s!"ok\t{bitsStr p}\t{bitsStr q}"
+      | .error e => s!"err\t{e.str}"
+    | _, _, _, _ => "bad-op"
+  | ["c08.reduce", r, a] =>
+    match parseRule r, parseTU a with
+    | some rule, some u =>
+      match reduceUnit rule tab u with
+      | .ok (some l) => s!"ok\t{tuStr l}"
+      | .ok none => "ok\tnone"
+      | .error e => s!"err\t{e.str}"
+    | _, _ => "bad-op"
+  | ["c08.diff", a, x, y] =>
+    match parseTU a, fb x, fb y with
+    | some u, some xa, some xb => lvOut (tempDiff tab u xa xb)
+    | _, _, _ => "bad-op"
+  | ["c08.conv", a, b, x] =>
+    match parseTU a, parseTU b, fb x with
+    | some u, some v, some x0 =>
+      let f := tempConvFactor genSyms genNames tab u v
+      let o := match f.2 with | some o => bitsStr o | none => "none"
+      s!"ok\t{bitsStr f.1}\t{o}\t{bitsStr (applyTempFactor f x0)}"
+    | _, _, _ => "bad-op"
+  | ["c08.mul", a, b] =>
+    match parseOpnd a, parseOpnd b with
+    | some p, some q => unitVOut (tempMul tab p q)
+    | _, _ => "bad-op"
+  | ["c08.div", a, b] =>
+    match parseOpnd a, parseOpnd b with
+    | some p, some q => unitVOut (tempDivide tab p q)
+    | _, _ => "bad-op"
+  | ["c08.unary", op, p, a] =>
+    match parseUnOp op p, parseTU a with
+    | some o, some u => unitVOut (tempUnary tab o u)
+    | _, _ => "bad-op"
+  -- dumps of the regenerated tables (the translator is checked against the live objects)
+  | ["c08.row", b] =>
+    match TBase.ofName (Name.ofString b) with
+    | some base =>
+      let r := tab base
+      s!"ok\t{bitsStr r.scale}\t{bitsStr r.offset}\t{if r.prefixable then 1 else 0}"
+    | none => "none"
+  | ["c08.prefix", p] =>
+    match genPfx Float (Name.ofString p) with
+    | some pf => s!"ok\t{bitsStr pf.val}"
+    | none => "none"
+  | ["c08.unit", a] =>
+    match parseTU a with
+    | some u =>
+      s!"ok\t{bitsStr (u.scale tab)}\t{bitsStr (u.offset tab)}\t{Name.toString u.repr}\t{Name.toString u.str}\t{if splitsPrefix genSyms genNames u.str then 1 else 0}"
+    | none => "none"
+  | ["c08.rule", uf] => s!"ok\t{genRule uf}"
+  | _ => "bad-op"
+
+def opsC08 : Handler := fun st fields =>
+  match stepC08 fields with
+  | "bad-op" => none
+  | r => some (st, r)
 
 end Unyt
